@@ -8,6 +8,7 @@ import impl as implmod
 import props.c02 as c02
 
 PROP = "C11"
+CONSTS = ['mem']          # constant tables of the models this property depends on
 RULE = ("programs of C02 (incl. loops larger and smaller than the cache, branches into the middle of a block) with random "
         "instruction-cache geometries/policies/penalties in both modes, snapshot (incl. every cached block and the counters) "
         "after every step; sequences of program loads; non-trivial = program with >=1 icache hit and >=1 miss; distinct = "
